@@ -115,11 +115,11 @@ def world():
     gcms = {}
     for i in range(5):
         ns = {"contextlib": contextlib}
-        exec("@contextlib.contextmanager\ndef gcm%d():\n    yield 'in-gcm%d'\n" % (i, i), ns)
+        exec("@contextlib.contextmanager\ndef gcm%d():\n    with contextlib.nullcontext():\n        yield 'in-gcm%d'\n" % (i, i), ns)
         fn = ns["gcm%d" % i]
         gcms["g%d" % i] = fn
         # the same through a helper generator: the manager's own frame is then not the innermost of its inner stack
-        exec("def _hold%d():\n    yield 'in-gcmy%d'\n\n@contextlib.contextmanager\ndef gcmy%d():\n    yield from _hold%d()\n" % (i, i, i, i), ns)
+        exec("def _hold%d():\n    yield 'in-gcmy%d'\n\n@contextlib.contextmanager\ndef gcmy%d():\n    with contextlib.nullcontext():\n        yield from _hold%d()\n" % (i, i, i, i), ns)
         gcms["y%d" % i] = ns["gcmy%d" % i]
 
         def mk(name):
@@ -215,7 +215,8 @@ def reference(case, exiting, limit=100):
             # built-in glue for generator-based managers: inner_stack unless exiting, description always
             f["desc"] = "GCM"
             if not exiting:
-                f["inner"] = "gen-of-" + cur
+                # the manager's generator frames, analysed with their own contexts (one with-block in the manager's body)
+                f["inner"] = "gen-of-" + cur + "/ctx1"
         # unwrap
         if cur == "PLAIN":
             r = None
@@ -268,7 +269,7 @@ def summarize(ctxobj, err):
             # extraction of a gcm's generator
             for k, v in T["objs"].items():
                 if getattr(v, "gen", None) is r:
-                    inner = "gen-of-" + k
+                    inner = "gen-of-" + k + "/ctx%d" % sum(len(fr.contexts) for fr in ctxobj.inner_stack.frames)
             if inner is None:
                 inner = repr(r)
     return dict(obj=name, hide=ctxobj.hide, desc=desc, children=children, inner=inner, error=err)
